@@ -134,9 +134,23 @@ class Events:
             else:
                 return None
             neg = False
-            while o[0] == "un" and o[1] == "Not":
-                o = o[2]
-                neg = not neg
+            while True:
+                if o[0] == "un" and o[1] == "Not":
+                    o = o[2]
+                    neg = not neg
+                    continue
+                # `x == false`, `x != true`, ... on a boolean x: the test of x itself
+                if o[0] == "bin" and o[1] in ("Eq", "Ne"):
+                    a_, b_ = o[2], o[3]
+                    if a_[0] == "const" and a_[1] == "bool":
+                        a_, b_ = b_, a_
+                    if b_[0] == "const" and b_[1] == "bool" and a_[0] != "const":
+                        same = (o[1] == "Eq") == bool(b_[2])
+                        o = a_
+                        if not same:
+                            neg = not neg
+                        continue
+                break
             if neg:
                 truth = not truth
             if o[0] == "bin" and o[1] in ("Eq", "Ne", "Lt", "Le", "Gt", "Ge"):
